@@ -641,7 +641,7 @@ fn replay_line(line: &str) -> String {
             let tree = decode_tree(&t, &mut i);
             treeop::run_include(&tree)
         }
-        "update" => {
+        "update" | "updatecv" => {
             use enc::unhx;
             let mut i = 1;
             let strict_cols = t[i] == "1";
@@ -676,6 +676,7 @@ fn replay_line(line: &str) -> String {
                 tag: "replay".into(),
                 representable: false,
                 expect_final: None,
+                accept_all: t[0] == "updatecv",
             };
             c.run().0
         }
